@@ -55,6 +55,13 @@ def make_command(frame, sendtwice=False, response=None, devicetype=0):
 # ---------------------------------------------------------------------------------------------
 # fake os for dali.driver.hid
 
+def _env(e):
+    """An exception the modelled environment raises on purpose (a failing write, a vanished device): if the
+    library lets it escape that is the library's doing, not a harness error."""
+    e._from_library = True
+    return e
+
+
 class FakeOS:
     O_RDWR = 2
     O_NONBLOCK = 2048
@@ -74,7 +81,7 @@ class FakeOS:
         self.opens += 1
         if self.fail_opens > 0:
             self.fail_opens -= 1
-            raise OSError("no such device")
+            raise _env(OSError("no such device"))
         self.next_fd += 1
         return self.next_fd
 
@@ -83,13 +90,13 @@ class FakeOS:
 
     def write(self, fd, data):
         if not isinstance(fd, int):
-            raise TypeError("an integer is required (got type %s)" % type(fd).__name__)
+            raise _env(TypeError("an integer is required (got type %s)" % type(fd).__name__))
         if fd in self.closed:
-            raise OSError(9, "Bad file descriptor")
+            raise _env(OSError(9, "Bad file descriptor"))
         i = self.nwrites
         self.nwrites += 1
         if i in self.fail_writes:
-            raise OSError("write failed")
+            raise _env(OSError("write failed"))
         if not isinstance(data, bytes):
             data = mkbytes(list(data))      # the device has the bytes now: later changes to a buffer are not seen
         self.writes.append(data)
@@ -99,10 +106,10 @@ class FakeOS:
 
     def read(self, fd, n):
         if not self.reads:
-            raise BlockingIOError()
+            raise _env(BlockingIOError())
         d = self.reads.pop(0)
         if isinstance(d, Exception):
-            raise d
+            raise _env(d)
         return d
 
 
@@ -166,9 +173,9 @@ async def tridonic_connect(loop, rig, **kw):
     """Create a tridonic driver, connect and run the version/serial handshake."""
     d = H.tridonic("/dev/dali", **kw)
     if rig.ctx.symbolic:
-        # sequence numbers may be symbolic: a dict that does not hash its keys
-        from symx import shims
-        d._outstanding = shims.SymKeyDict()
+        # sequence numbers may be symbolic: dicts that do not hash their keys
+        symbolic_registries(d)
+    note_idle(d)
     d.connect()
     await vloop.settle(2)
     rig.deliver(loop, d, bytes([1, 0, 0, 1, 2] + [0] * 59))      # firmware version
@@ -239,3 +246,52 @@ def luba_event_rx(frame_bytes, info=None):
 
 def sci_frame(status, hi, mi, lo):
     return [status, hi, mi, lo, status ^ hi ^ mi ^ lo]
+
+
+# ---------------------------------------------------------------------------------------------
+# probes of a driver's private state that do not depend on attribute names
+
+def symbolic_registries(d):
+    """Symbolic mode: every (still empty) plain dict the driver object owns becomes a dict that can be
+    keyed by symbolic values (sequence numbers are symbolic in some cases) - whatever the attribute is
+    called."""
+    from symx import shims
+    for k, v in list(vars(d).items()):
+        if type(v) is dict and not v:
+            setattr(d, k, shims.SymKeyDict())
+
+
+def held(d, *more):
+    """What a driver (and the protocol objects passed along) is still holding: number of entries in its
+    private dicts, semaphores below their initial value, locks that are locked.  Names are not used: any dict /
+    asyncio.Semaphore / asyncio.Lock the object owns counts.  `transaction_lock` is reported separately by
+    the harnesses."""
+    out = {"entries": 0, "semaphores": 0, "locks": 0}
+    for obj in (d,) + more:
+        for k, v in list(vars(obj).items()):
+            if isinstance(v, dict):
+                out["entries"] += len(v)
+            elif isinstance(v, asyncio.Semaphore):
+                init = _SEM_INIT.get(id(v))
+                if init is not None and v._value < init:
+                    out["semaphores"] += init - v._value
+            elif isinstance(v, asyncio.Lock) and k != "transaction_lock":
+                out["locks"] += 1 if v.locked() else 0
+    return out
+
+
+_SEM_INIT = {}
+
+
+def note_idle(d, *more):
+    """Remember the idle value of every semaphore the objects own (call once, right after construction)."""
+    for obj in (d,) + more:
+        for v in vars(obj).values():
+            if isinstance(v, asyncio.Semaphore):
+                _SEM_INIT[id(v)] = v._value
+
+
+def background_tasks_alive(d):
+    """All asyncio tasks the driver object keeps in attributes are still running (none died)."""
+    ts = [v for v in vars(d).values() if isinstance(v, asyncio.Task)]
+    return bool(ts) and all(not t.done() for t in ts), [t.exception() for t in ts if t.done() and not t.cancelled()]
